@@ -486,7 +486,12 @@ pub fn generate(rng: &mut Rng, o: Opts) -> Prog {
     let mut lines: Vec<Line> = vec![];
     if o.tron {
         let l = g.label();
-        lines.push(Line { label: l, sts: vec![St::Tron] });
+        // TRON with more statements behind it on the same line: the line it is on is not announced
+        let mut sts = vec![St::Tron];
+        if g.rng.coin() {
+            sts.push(g.simple());
+        }
+        lines.push(Line { label: l, sts });
     }
     if o.func {
         let nf = g.rng.range(1, 3) as usize;
